@@ -255,6 +255,67 @@ def documented_dump(spec: morph.Spec, x):
     return UNKNOWN   # unions: the documented class dispatch is checked by the correspondence + Lean; models: C03
 
 
+def union_dump_oracle(ctx: Ctx, eng, rec):
+    """documented: a union is dumped by the runtime class of the value, falling back to the NEAREST ancestor among the cases.
+    Checked for top-level unions whose cases are keyed by classes: the union dumper must give what the dumper of that case gives"""
+    spec, x = rec["spec"], rec["value"]
+    if spec.kind != "union" or rec["origin"] != "typed" or any(c.kind == "literal" for c in spec.children):
+        return
+    table = {}
+    for i, k in enumerate(spec.key_classes):
+        table[k] = i            # a later case replaces an earlier one with the same class
+    pick = next((table[c] for c in type(x).__mro__ if c in table), None)
+    if pick is None:
+        return                  # virtual subclasses (ABCs): the fallback order is covered by the model correspondence
+    exact = type(x) in table
+    ctx.note_case({"t": spec.ty, "x": morph.enc(x)}, nontrivial=not exact, kind="union-dump:" + ("exact-class" if exact else "subclass"))
+    for m in morph.MODES:
+        want = morph.canon_outcome(eng.real.dump(m, True, spec.children[pick].hint, x))
+        got = rec["real"][m]
+        if want["r"] == "ok" and got != want:
+            ctx.fail("union-dump:nearest-ancestor", f"[{m}] a {type(x).__name__} value is not dumped by the dumper of its nearest "
+                     f"ancestor case {spec.key_classes[pick].__name__} of {repr(spec.hint)[:120]}",
+                     {"hint": repr(spec.hint)[:300], "value": morph.enc(x), "mode": m, "got": got, "want": want})
+            return
+
+
+def builtin_subclass_union_probes(ctx: Ctx, eng):
+    """the same rule on stdlib classes with subclass values (outside the model's value universe: real code only)"""
+    import datetime
+    from collections.abc import Sequence
+    from typing import Union
+
+    class MyDT(datetime.datetime):
+        pass
+
+    class MyStr(str):
+        pass
+
+    class MyDate(datetime.date):
+        pass
+
+    class MyInt(int):
+        pass
+    probes = [
+        (Union[datetime.date, datetime.datetime], MyDT(2020, 1, 2, 3, 4, 5), datetime.datetime),
+        (Union[datetime.date, datetime.datetime, None], MyDT(2020, 1, 2, 3, 4, 5), datetime.datetime),
+        (Union[datetime.date, datetime.datetime], MyDate(2020, 1, 2), datetime.date),
+        (Union[Sequence[int], str], MyStr("abc"), str),
+        (Union[Sequence[str], str, None], MyStr("abc"), str),
+        (Union[int, bool, str], MyInt(5), int),
+        (Union[float, int, bool], True, bool),
+    ]
+    for hint, x, case in probes:
+        for m in morph.MODES:
+            got = morph.canon_outcome(eng.real.dump(m, True, hint, x))
+            want = morph.canon_outcome(eng.real.dump(m, True, case, x))
+            ctx.note_case({"p": repr(hint), "x": repr(x), "m": m}, nontrivial=True, kind="union-dump:builtin-subclass")
+            if want["r"] == "ok" and got != want:
+                ctx.fail("union-dump:nearest-ancestor", f"[{m}] {x!r} ({type(x).__name__}) through {hint!r} is not dumped by the "
+                         f"dumper of its nearest ancestor case {case.__name__}: {got}", {"hint": repr(hint), "value": repr(x), "mode": m})
+                break
+
+
 def newtype_probes(ctx: Ctx, eng):
     """NewType / Annotated / Final are processed as the wrapped type"""
     from typing import Annotated, NewType
@@ -273,7 +334,7 @@ def newtype_probes(ctx: Ctx, eng):
 
 def run(ctx: Ctx):
     eng = morph.Engine(ctx)
-    specs = eng.gen_specs(ctx.budget(180, 2500), 3 if ctx.tier == "quick" else 4)
+    specs = eng.gen_specs(ctx.budget(180, 2500), 3 if ctx.tier == "quick" else 4, related=True)
     recs = eng.load_records(specs, suite="load", n_valid=2, n_corrupt=3, n_hostile=3)
     for rec in recs:
         ill = rec.origin != "valid"
@@ -284,7 +345,9 @@ def run(ctx: Ctx):
             ctx.sample({"hint": repr(rec.spec.hint)[:120], "datum": morph.enc(rec.datum), "strict": rec.real[("DISABLE", True)]["r"],
                         "lax": rec.real[("DISABLE", False)]["r"]})
     drecs = eng.dump_records(specs, suite="dump", n_values=2)
+    builtin_subclass_union_probes(ctx, eng)
     for rec in drecs:
+        union_dump_oracle(ctx, eng, rec)
         if rec["origin"] != "typed" or spec_has_model(rec["spec"]) or morph.spec_has_union(rec["spec"]):
             continue
         want = documented_dump(rec["spec"], rec["value"])
@@ -305,8 +368,12 @@ def run(ctx: Ctx):
 def search(ctx: Ctx):
     eng = morph.Engine(ctx)
     eng.drv = None
-    for rec in eng.load_records(eng.gen_specs(2000, 4), n_valid=2, n_corrupt=4, n_hostile=4):
+    specs = eng.gen_specs(2000, 4, related=True)
+    for rec in eng.load_records(specs, n_valid=2, n_corrupt=4, n_hostile=4):
         oracle_load(ctx, eng, rec)
+    builtin_subclass_union_probes(ctx, eng)
+    for rec in eng.dump_records(specs, n_values=2):
+        union_dump_oracle(ctx, eng, rec)
     newtype_probes(ctx, eng)
 
 
